@@ -1060,22 +1060,16 @@ func ruleA18(c *Ctx) {
 
 func ruleM17w(c *Ctx) {
 	c.doc("M17w", "the operating mode of the sizing pass (Pass1.BitMode) and of the emitters (CodeGenContext.BitMode, Client.SetBitMode) is assigned only in the BITS clause of TraverseAST and in the SetBitMode forwarder; no other directive (FORMAT, INSTRSET, ORG …) or handler selects a mode")
-	var bitsClause *ast.CaseClause
+	var bitsClause *directiveClause
 	if tfd, tp := c.L.FuncDecl("internal/pass1", "TraverseAST"); tfd != nil {
-		ast.Inspect(tfd.Body, func(n ast.Node) bool {
-			cc, ok := n.(*ast.CaseClause)
-			if !ok {
-				return true
-			}
-			for _, e := range cc.List {
-				if sel, ok := e.(*ast.SelectorExpr); ok && sel.Sel.Name == "Bits" {
-					if o, ok := tp.TypesInfo.Uses[sel.Sel].(*types.Const); ok && o.Pkg() != nil && strings.HasSuffix(o.Pkg().Path(), "internal/ast") {
-						bitsClause = cc
-					}
+		for _, dc := range directiveClauses(tp, tfd) {
+			for _, nm := range dc.Names {
+				if nm == "Bits" {
+					d := dc
+					bitsClause = &d
 				}
 			}
-			return true
-		})
+		}
 	}
 	if bitsClause == nil {
 		c.anchorMissing("M17w", "TraverseAST: case ast.Bits")
